@@ -105,6 +105,7 @@ func runC06(c *vh.Ctx) {
 
 	if c.ReplayFile == "" && purityStream {
 		runPurity(c)
+		runCrlf(c)
 	}
 
 	// correspondence with the Lean model
